@@ -3,7 +3,7 @@
 # patch the existing suite passes and the demo fails.  Writes /tmp/wt/confirm.tsv
 export CARGO_NET_OFFLINE=true CARGO_TARGET_DIR=/tmp/wt/target-shared
 out=/tmp/wt/confirm.tsv; : > $out
-for d in /tmp/wt/C*/; do
+for d in ${DIRS:-/tmp/wt/C*/}; do
   id=$(basename $d)
   for k in 1 2 3 4; do
     patch=$d/_out/patch$k.diff; demo=$d/_out/demo$k.rs
